@@ -66,6 +66,33 @@ where
     out
 }
 
+/// `IterInput` with spans: after every `next_maybe` also ask for the span from the cursor the call started at, and from
+/// the very first cursor, to the cursor it produced (what `span_since` does after a match / at a failure), and for the empty match at that cursor
+fn replay_iter_spans(v: Vec<(char, SimpleSpan)>, eoi: SimpleSpan, sched: &[usize]) -> String {
+    type I = IterInput<std::vec::IntoIter<(char, SimpleSpan)>, SimpleSpan>;
+    let input: I = IterInput::new(v.into_iter(), eoi);
+    let (c0, mut cache) = input.begin();
+    let mut cursors: Vec<<I as Input>::Cursor> = vec![c0.clone()];
+    let mut out = String::new();
+    for &k in sched {
+        let from = cursors[k % cursors.len()].clone();
+        let mut cu = from.clone();
+        let loc = <I as Input>::cursor_location(&cu);
+        let t = unsafe { <I as Input>::next_maybe(&mut cache, &mut cu) };
+        let s1 = unsafe { <I as Input>::span(&mut cache, &from..&cu) };
+        let s0 = unsafe { <I as Input>::span(&mut cache, &c0..&cu) };
+        let s2 = unsafe { <I as Input>::span(&mut cache, &cu..&cu) };
+        use std::fmt::Write as _;
+        let tk = match t {
+            Some(t) => (t as u32).to_string(),
+            None => "-".to_string(),
+        };
+        let _ = write!(out, " {}:{}@{}-{}@{}-{}@{}-{}", loc, tk, s1.start, s1.end, s0.start, s0.end, s2.start, s2.end);
+        cursors.push(cu);
+    }
+    out
+}
+
 fn in_line(toks: &[&str], w: &mut dyn Write) {
     let id = toks[1];
     let kind = toks[2];
@@ -132,6 +159,10 @@ fn in_line(toks: &[&str], w: &mut dyn Write) {
             "iter" => {
                 let (v, eoi) = chumsky_verif_harness::run::mapped_tokens(ts, 1);
                 replay_maybe(IterInput::new(v.into_iter(), eoi), &sched, |c: char| c as u32)
+            }
+            "iterspan" => {
+                let (v, eoi) = chumsky_verif_harness::run::mapped_tokens(ts, 1);
+                replay_iter_spans(v, eoi, &sched)
             }
             other => format!("ERR unknown-kind-{other}"),
         }))
